@@ -79,6 +79,28 @@ PROPS['C05'] = {
                   '(loop-free), including SP = 0/1/0xFFFF and SS:SP at the top of the 1 MiB space',
     'level_note': 'trusted: Kani/CBMC/solver soundness; reduction order of the LR parser validated natively',
 }
+PROPS['C06'] = {
+    'explanation': 'the 26 jumps_condition actions against the Intel predicate table (by mnemonic), the LOOP family CX protocol, '
+                   'complement pairs, and the jumps_loops combiner (label lookup -> JMP(position) / NEXT / error); the assembler\'s '
+                   'synonym table (which mnemonic each of the spellings is emitted as) is decided by the grammar engine',
+    'bounds': 'loop-free: all 2^16 flag words x 2^16 CX x every mnemonic; label table with one entry',
+    'outside': 'which interpreter mnemonic a source spelling is turned into is E2 (spelling table below); parser driver',
+    'backends': [(r'combiner', ['sat', 'z3']), (r'.*', [('z3', 'cvc5'), 'sat-arrays'])],
+    'assumptions': ['label table = association list under Kani'],
+    'level_text': 'bounded model checking without a bound: the predicate of every mnemonic is compared with the Intel table for all flag words',
+    'level_note': 'trusted: Kani/CBMC/solver soundness; JLE/JNG is a known finding (pinned by a repository test)',
+}
+PROPS['C07'] = {
+    'explanation': 'the ten string kernels (element at DS:SI / ES:DI, +-1/+-2 by DF, CMPS/SCAS flags = SUB, nothing else changes), '
+                   'the mnemonic -> kernel table, and the REP/REPE/REPNE productions driven through the REPEAT protocol to '
+                   'completion with a scripted body (arbitrary sequence of ZF outcomes) against the architectural loop',
+    'bounds': 'kernels: loop-free, all states; REP protocol: CX <= 3 (quick) / CX <= 8 (thorough), unwinding assertions on; larger CX outside the claim',
+    'outside': 'word elements at offset 0xFFFF (second byte: physical successor vs. wrap) -- totality for them is C09; the driver loop that re-parses on REPEAT is played by the harness (reduction order validated natively)',
+    'backends': [(r'rep_protocol|mnemonic', ['sat', 'z3']), (r'.*', [('z3', 'cvc5'), 'sat-arrays'])],
+    'assumptions': ['REP harness: the string kernel is replaced by a scripted body passed as the semantic value of string_instructions (the productions receive the kernel as a value); the kernels themselves are the A-harnesses'],
+    'level_text': 'bounded model checking: kernels for every state; prefix protocol for every CX within the bound and every sequence of comparison outcomes',
+    'level_note': 'trusted: Kani/CBMC/solver soundness; CX beyond the bound is outside the claim',
+}
 
 NOT_APPLICABLE = {
     'C13': 'macro definition/use is regex::Regex + a recursive call of the generated parser on heap strings; Kani cannot compile the regex engine or the LALRPOP driver (compiler ICE), and a hand model of the substitution would not be the real code',
